@@ -17,7 +17,7 @@ import (
 )
 
 type c15Op struct {
-	Op    string `json:"op"` // set | get | dirty | clean
+	Op    string `json:"op"` // set | get | dirty | clean | fetch (get, and on a miss set clean)
 	Key   int    `json:"k"`
 	Dirty bool   `json:"d,omitempty"`   // set: the page is already dirty when it is inserted
 	Fresh bool   `json:"f,omitempty"`   // set: a new page object even if the key is resident
@@ -29,6 +29,9 @@ type c15Case struct {
 	Cap int     `json:"cap"`
 	Ops []c15Op `json:"ops"`
 }
+
+// c15Key: the cache is keyed the way the file store keys it - by page offset.
+func c15Key(k int) any { return uint64(k) * pageSize }
 
 type c15Entry struct {
 	key  int
@@ -145,6 +148,16 @@ func (r *c15Runner) clone() *c15Runner {
 
 // step applies one operation to both and compares. "" = agree.
 func (r *c15Runner) step(op c15Op) string {
+	if op.Op == "fetch" {
+		// what the file store does for a page: look it up, and on a miss read it and store it (clean)
+		if msg := r.step(c15Op{Op: "get", Key: op.Key}); msg != "" {
+			return msg
+		}
+		if r.m.find(op.Key) >= 0 {
+			return ""
+		}
+		return r.step(c15Op{Op: "set", Key: op.Key, Fresh: true})
+	}
 	switch op.Op {
 	case "set":
 		n := r.nodes[op.Key]
@@ -158,7 +171,7 @@ func (r *c15Runner) step(op c15Op) string {
 			r.nodes[op.Key] = n
 		}
 		wantOK, evicted, skipped := r.m.set(op.Key, n)
-		gotOK := r.lru.set(op.Key, n)
+		gotOK := r.lru.set(c15Key(op.Key), n)
 		if gotOK != wantOK {
 			if !wantOK {
 				return fmt.Sprintf("set(%d) into a cache full of dirty pages returned true, must be refused", op.Key)
@@ -176,7 +189,7 @@ func (r *c15Runner) step(op c15Op) string {
 		}
 	case "get":
 		wantN, wantOK := r.m.get(op.Key)
-		gotN, gotOK := r.lru.get(op.Key)
+		gotN, gotOK := r.lru.get(c15Key(op.Key))
 		if gotOK != wantOK {
 			return fmt.Sprintf("get(%d): found=%v, expected %v", op.Key, gotOK, wantOK)
 		}
@@ -210,7 +223,7 @@ func (r *c15Runner) compare() string {
 	for e := r.lru.list.Front(); e != nil; e = e.Next() {
 		ce := e.Value.(*cacheEntry)
 		want := r.m.entries[i]
-		if ce.key != want.key {
+		if ce.key != c15Key(want.key) {
 			return fmt.Sprintf("recency order differs at position %d: %s", i, r.describe())
 		}
 		if ce.val != want.node {
@@ -248,7 +261,7 @@ func c15Run(c c15Case, st *vlib.Stats) string {
 			continue
 		}
 		for k := 0; k < op.N; k++ {
-			key := op.Key + k
+			key := op.Key + k // set, fetch: consecutive pages (a load, a table scan)
 			if op.Op == "get" {
 				key = op.Key // a burst of lookups of one page
 			}
@@ -326,6 +339,11 @@ func c15Gen(t *rapid.T) c15Case {
 		}
 		if op.Op == "dirty" || op.Dirty {
 			op.LSN = rapid.SampledFrom([]int{0, 0, 1, 5, 40}).Draw(t, "lsn")
+		}
+		if op.Op == "get" && rapid.IntRange(0, 19).Draw(t, "scan") == 3 {
+			// a scan over consecutive pages, most of them not resident
+			op.Op = "fetch"
+			op.N = rapid.SampledFrom([]int{3, 5, 6, 9, 20}).Draw(t, "scanlen")
 		}
 		if op.Op == "get" && rapid.IntRange(0, 19).Draw(t, "burst") == 7 {
 			// a read burst: many lookups in a row with no insertion in between
